@@ -635,6 +635,80 @@ class ModifyIf1(_InPlace):
         self.common(cx, result)
 
 
+# ---- values, not only frames: modify / modify_if with two key=function pairs on pairwise distinct items ---------------------
+_mv_holder = {}
+
+
+def _modified_contents(holder, c0):
+    """contents of an item after modify(k1=f1, k2=f2) / modify_if(pred, k1=f1, k2=f2) given its contents c0 before: the predicate is
+    evaluated ONCE on the untouched item; k1 is set first, f2 sees the item with k1 already set"""
+    k1, k2, f1, f2, pred = holder["k1"], holder["k2"], holder["f1"], holder["f2"], holder.get("pred")
+    c1 = z3.Store(c0, k1, f1.of(c0))
+    c2 = z3.Store(c1, k2, f2.of(c1))
+    if pred is None:
+        return c2
+    from pyvc.core import truthy
+    return z3.If(truthy(pred.of(c0)), c2, c0)
+
+
+def make_modify_values_inv(holder):
+    def inv(S):
+        D, D0 = S.heap["D"], S.entry_heap["D"]
+        s, pos = holder["s"], holder["pos"]
+        r = z3.Const("r!mv", V)
+        p = pos(r)
+        done = z3.And(0 <= p, p < S.k, s.at(p) == r)
+        return z3.ForAll([r], D[r] == z3.If(done, _modified_contents(holder, D0[r]), D0[r]))
+    return inv
+
+
+class _ModifyValues(Contract):
+    file, prop = F, "C15"
+    also = ("C17",)
+    with_pred = False
+
+    def setup(self, cx):
+        from pyvc.speclib import ItemCallback
+        self_ = cx.lod("self")
+        s = self_.base
+        pos = distinct_items(cx, s, "self")
+        f1, f2 = ItemCallback(cx.ctx, "f1"), ItemCallback(cx.ctx, "f2")
+        pred = ItemCallback(cx.ctx, "pred") if self.with_pred else None
+        self.holder.clear()
+        self.holder.update(s=s, pos=pos, k1=M.to_v(cx.it, "k1"), k2=M.to_v(cx.it, "k2"), f1=f1, f2=f2, pred=pred)
+        args = [pred] if self.with_pred else []
+        return {"self": self_, "args": args, "kwargs": {"k1": f1, "k2": f2}}
+
+    def ensures(self, cx, result):
+        ctx = cx.ctx
+        s = self.holder["s"]
+        D0, D = cx.old["heap"]["D"], ctx.heap["D"]
+        items = result_items(cx, result)
+        j, r = ctx.fresh("j", INT), ctx.fresh("r", V)
+        cx.prove("same-item-objects-in-order", z3.And(zint(items.len) == zint(s.len), z3.Implies(in_range(j, s.len), items.at(j) == s.at(j))))
+        cx.prove("values: every item (concerned, for modify_if: predicate evaluated once on the untouched item) gets k1 = f1(item) and then k2 = f2(item with k1 set); nothing else changes",
+                 z3.Implies(in_range(j, s.len), D[s.at(j)] == _modified_contents(self.holder, D0[s.at(j)])))
+        pos = self.holder["pos"]
+        cx.prove("frame: dicts outside the list never change", z3.Implies(z3.Not(z3.And(in_range(pos(r), s.len), s.at(pos(r)) == r)), D[r] == D0[r]))
+
+
+_mv1, _mv2 = {}, {}
+
+
+@register
+class ModifyValues2(_ModifyValues):
+    """modify(k1=f1, k2=f2) on pairwise distinct items, f1 / f2 functions of the item's own entries."""
+    qualname, variant, holder = "ListOfDicts.modify", "two keys: values", _mv1
+    loops = {("ListOfDicts.modify", 0): LoopSpec(make_modify_values_inv(_mv1))}
+
+
+@register
+class ModifyIfValues2(_ModifyValues):
+    """modify_if(pred, k1=f1, k2=f2) on pairwise distinct items: the items concerned are those for which pred holds BEFORE any edit."""
+    qualname, variant, holder, with_pred = "ListOfDicts.modify_if", "two keys: values", _mv2, True
+    loops = {("ListOfDicts.modify_if", 0): LoopSpec(make_modify_values_inv(_mv2))}
+
+
 def unselect_inv(S):
     D, D0 = S.heap["D"], S.entry_heap["D"]
     r, x = z3.Consts("r!inv x!inv", V)
@@ -947,6 +1021,60 @@ class GetAttributeObsoleteMachinery(_GetAttribute):
 
 
 @register
+class GetAttributePrivateHelper(_GetAttribute):
+    """slicing, +, * and copy reach the list only through the private helper _new: looking it up IS the next use"""
+    variant, attr = "the private helper _new (used by slicing, + and *)", "_new"
+
+    def expect_warn(self, cx):
+        return z3.And(cx.obs0, z3.Not(cx.warned0))
+
+
+def cx_len(cx):
+    return cx._lod_len
+
+
+class _UseThroughOperator(Contract):
+    """the next use of an obsolete list through an operator (no public attribute is looked up) prints the warning exactly once"""
+    file, prop = F, "C17"
+    config = {"honor_lod_getattribute": True}      # every attribute lookup on the list goes through the real __getattribute__
+
+    def setup(self, cx):
+        self_ = cx.lod("self")
+        cx._lod_len = self_.base.len
+        cx.obs0, cx.warned0 = self_.attrs["_obsolete"], self_.attrs["_obsolete_warned"]
+        return {"self": self_, "args": self.operands(cx)}
+
+    def ensures(self, cx, result):
+        me = cx.inputs["self"]
+        warn = z3.And(cx.obs0, z3.Not(cx.warned0))
+        n = len(cx.ctx.printed)
+        cx.prove("warning-printed-iff-obsolete-and-not-yet-warned",
+                 z3.And(z3.Implies(warn, z3.BoolVal(n == 1)), z3.Implies(z3.Not(warn), z3.BoolVal(n == 0))))
+        after = me.attrs["_obsolete_warned"]
+        after = after if M.is_z3(after) else z3.BoolVal(bool(after))
+        cx.prove("warned-flag", after == z3.Or(cx.warned0, warn))
+
+
+@register
+class UseThroughSlice(_UseThroughOperator):
+    qualname, variant = "ListOfDicts.__getitem__", "obsolete receiver: slicing is a use"
+
+    def operands(self, cx):
+        from pyvc.interp import SliceVal
+        lo, hi = cx.int("lo"), cx.int("hi")
+        cx.assume(z3.And(0 <= lo, lo <= hi, hi <= zint(cx_len(cx))))
+        return [SliceVal(lo, hi, None)]
+
+
+@register
+class UseThroughAdd(_UseThroughOperator):
+    qualname, variant = "ListOfDicts.__add__", "obsolete receiver: + is a use"
+
+    def operands(self, cx):
+        return [cx.lod("other")]
+
+
+@register
 class DeepCopy(Contract):
     """deepcopy: new list, new item dicts with equal contents, no predecessor link - so no later edit through
     the copy can reach an original dict (with the editors' frame conditions: they only write their own items)."""
@@ -965,6 +1093,8 @@ class DeepCopy(Contract):
         cx.prove("len", zint(items.len) == zint(s.len))
         cx.prove("equal-contents", z3.Implies(in_range(j, s.len), D[items.at(j)] == D0[s.at(j)]))
         cx.prove("fresh-item-objects", z3.Implies(in_range(j, s.len), z3.Not(A0[items.at(j)])))
+        cx.prove("every item is a DEEP copy (copy.deepcopy: values nested inside an item are not shared with the original)",
+                 z3.Implies(in_range(j, s.len), M.is_deepcopy(items.at(j))))
         cx.prove("shares-no-dict-with-original", z3.Implies(z3.And(in_range(j, s.len), in_range(j2, s.len)),
                                                            items.at(j) != s.at(j2)))
         cx.prove("no-predecessor-link", result.attrs.get("_predecessor") is None)
@@ -1207,3 +1337,9 @@ class LoDCompositesBounded(Contract):
         agg = mod.find("ListOfDicts.aggregate")[0]
         called = {n.func.attr for n in _ast.walk(agg) if isinstance(n, _ast.Call) and isinstance(n.func, _ast.Attribute)}
         cx.prove("structure: aggregate groups via unique + sort", {"unique", "sort", "setdefault"} <= called)
+
+
+from pyvc.contract import bounded_only as _bo
+_bo("C16", F + "::ListOfDicts.full_join[every left and right item at least once, merged pairs have equal keys]",
+    "nine-call composite with deep copies and counters: bounded run-time contract only, every tier")
+_bo("C16", F + "::ListOfDicts.full_join[renamed key]", "same, key named differently on the two sides")
